@@ -41,7 +41,7 @@ Init == /\ fmt \in Fmts /\ rnd \in Seeds /\ rs = <<>> /\ st = "body"
 \* fmt = "raw" (C15 only): the file is its own memory image at address 0 (first byte 0x90 so that no format claims it)
 AddRaw ==
   /\ st = "body" /\ fmt = "raw"
-  /\ \E len \in Lens : rs' = << [type |-> 0, addr |-> 0, data |-> <<144>> \o Rd(rnd, 1, len)] >>
+  /\ \E len \in Lens : rs' = << [type |-> 0, addr |-> 0, data |-> <<144>> \o Rd(rnd, 1, 13 * len + (Rb(rnd, 2) % 5))] >>
   /\ rnd' = Adv(rnd) /\ st' = "done" /\ UNCHANGED fmt
 AddRec ==
   /\ st = "body" /\ fmt # "raw" /\ Len(rs) < MaxRecs
